@@ -25,7 +25,7 @@ Definition tasg (mv : bool) (p : param) : bool :=
 (* IS_TRIVIALLY_SWAPPABLE: trivially destructible, move constructible and move assignable,
    no ADL swap (std::byte lives in namespace std, so ADL finds std::swap for it and the
    library swaps it object by object) *)
-Definition tswp (p : param) : bool := match pty p with TTrk | TTrkC | TByte | TTrkMA => false | _ => true end.
+Definition tswp (p : param) : bool := match pty p with TTrk | TTrkC | TByte | TTrkMA | TTrkMC => false | _ => true end.
 
 (* ---------- calculate_consecutive_indices ---------- *)
 Inductive ridx := RSkip | RManual | REnd (e : nat).
